@@ -29,6 +29,7 @@ type Obligation struct {
 	raw       string // for lemma obligations: complete query body
 	Clause    *Clause
 	Pos       string
+	ShortLimit bool
 }
 
 // VC holds the verification conditions of one function.
